@@ -279,6 +279,14 @@ Proof. induction a; simpl; lia. Qed.
 Lemma sum_finite_app inf a b : sum_finite inf (a ++ b) = sum_finite inf a + sum_finite inf b.
 Proof. unfold sum_finite. now rewrite filter_app, zsum_app. Qed.
 
+Lemma vars_present a vs costs : Forall2 (fun v c => var_cost a v = Some c) vs costs ->
+  forallb (fun v : string * list Z => mem_key String.eqb (fst v) a) vs = true.
+Proof.
+  induction 1 as [|v c vs costs Hv _ IH]; simpl; auto.
+  rewrite IH, andb_true_r. unfold var_cost, slookup in Hv. unfold mem_key.
+  destruct (lookup String.eqb (fst v) a); [reflexivity|discriminate].
+Qed.
+
 Lemma orch_cost_accounts_assignment_l : forall d m costs_c costs_v,
   let a := filter_assignment (var_names d) (reported_assignment m) in
   List.length (d_vars d) = List.length a ->
@@ -288,7 +296,7 @@ Lemma orch_cost_accounts_assignment_l : forall d m costs_c costs_v,
                             sum_finite (d_infinity d) (costs_c ++ costs_v)).
 Proof.
   intros d m cc cv a Hlen Hc Hv. unfold reported_cost, solution_cost. fold a.
-  rewrite Hlen, Nat.eqb_refl. simpl.
+  rewrite (vars_present _ _ _ Hv), Hlen, Nat.eqb_refl. simpl.
   rewrite (account_cons_spec _ _ _ _ Hc), (account_vars_spec _ _ _ _ Hv). simpl.
   now rewrite count_inf_app, sum_finite_app.
 Qed.
